@@ -328,3 +328,68 @@ def param_index(body, name):
         if n == name and 1 <= l <= body.arg_count:
             return l
     raise AnchorMissing("%s has no parameter named %s" % (body.short, name))
+
+
+# ---- boolean decision tables ----------------------------------------------------
+
+_FLIP = {"Lt": "Gt", "Ge": "Le"}           # Lt(a,b) == Gt(b,a) ; Ge(a,b) == Le(b,a)
+_NEG = {"Gt": "Le", "Le": "Gt", "Eq": "Ne", "Ne": "Eq", "Lt": "Ge", "Ge": "Lt"}
+
+
+def norm_bool(e, truth=True):
+    """Set of atom strings (a conjunction) equivalent to `e == truth`, or None if it is a disjunction
+    that cannot be expressed as one conjunction."""
+    e = sym.strip_after(e)
+    k = e[0]
+    if k == "c" and e[2] == "int" and e[1] == "bool":
+        return set() if bool(e[3]) == truth else None
+    if k == "un" and e[1] == "Not":
+        return norm_bool(e[2], not truth)
+    if k == "call" and re.search(r"ops::Not>::not$|::not$", e[1]) and len(e[2]) == 1:
+        return norm_bool(e[2][0], not truth)
+    if k == "bin" and e[1] == "BitAnd" and truth:
+        a, b = norm_bool(e[2], True), norm_bool(e[3], True)
+        return None if a is None or b is None else a | b
+    if k == "bin" and e[1] == "BitOr" and not truth:
+        a, b = norm_bool(e[2], False), norm_bool(e[3], False)
+        return None if a is None or b is None else a | b
+    if k == "bin" and e[1] in ("Gt", "Lt", "Ge", "Le", "Eq", "Ne"):
+        op, a, b = e[1], e[2], e[3]
+        if not truth:
+            op = _NEG[op]
+        if op in _FLIP:
+            op, a, b = _FLIP[op], b, a
+        if op in ("Eq", "Ne"):
+            a, b = sorted([a, b], key=show)
+        return {"%s(%s, %s)" % (op, show(a), show(b))}
+    return {("" if truth else "!") + show(e)}
+
+
+def true_sets(fx, ps):
+    """Decision table of a bool function: the set of conjunctions under which it returns true."""
+    out = []
+    for p in ps:
+        if p.end != "return":
+            continue
+        conj = set()
+        dead = False
+        for a in p.atoms:
+            ab = sym.atom_bool(a)
+            if ab is not None:
+                c = norm_bool(ab[0], ab[1])
+                if c is None:
+                    c = {("" if ab[1] else "!") + show(sym.strip_after(ab[0]))}
+                conj |= c
+            else:
+                conj.add(sym.atom_text(fx, dict(a, discr=sym.strip_after(a["discr"]))))
+        r = norm_bool(p.ret, True)
+        if r is None:
+            # returns false on this path, or a disjunction
+            if sym.strip_after(p.ret)[0] == "c":
+                continue
+            conj.add(show(sym.strip_after(p.ret)))
+        else:
+            conj |= r
+        if not dead:
+            out.append(frozenset(conj))
+    return set(out)
